@@ -57,6 +57,9 @@ var programs = map[string]program{
 	"stale-rB-rA-wB": {name: "stale-rB-rA-wB", stale: true, ops: []op{{kind: "get", key: "b"}, {kind: "get", key: "a"}, {kind: "set", key: "b", val: "$"}}},
 	"rA-rB-wA":       {name: "rA-rB-wA", ops: []op{{kind: "get", key: "a"}, {kind: "get", key: "b"}, {kind: "set", key: "a", val: "$"}}},
 	"reset-scan-w":   {name: "reset-scan-w", ops: []op{{kind: "scan", reset: true}, {kind: "set", key: "z", val: "$"}}},
+	// (scenarios whose name starts with "sib:" start from a state in which one transaction wrote a, ab and b: after a
+	// concurrent delete of a, a prefix read of "a" resolves to the sibling ab, written by the same transaction)
+	"prefix-a-wz": {name: "prefix-a-wz", ops: []op{{kind: "getprefix", key: "a"}, {kind: "set", key: "z", val: "$"}}},
 }
 
 // result of one program execution
@@ -257,6 +260,7 @@ func firstWord(s string) string {
 }
 
 func scenario(name string, progs []string, opts func() *store.Options, multi bool) sched.Scenario {
+	sibling := strings.HasPrefix(name, "sib:")
 	return sched.Scenario{Name: name, MaxSteps: 400000, Body: func(dir string) string {
 		st, err := store.Open(dir, opts())
 		if err != nil {
@@ -278,6 +282,10 @@ func scenario(name string, progs []string, opts func() *store.Options, multi boo
 		tx, _ := st.NewWriteOnlyTx(ctx)
 		tx.Set([]byte("a"), nil, []byte("a0"))
 		tx.Set([]byte("b"), nil, []byte("b0"))
+		if sibling {
+			init["ab"] = "ab0"
+			tx.Set([]byte("ab"), nil, []byte("ab0"))
+		}
 		if _, err := tx.Commit(ctx); err != nil {
 			sched.Report("setup-failed", err.Error())
 			return "setup-failed"
@@ -391,6 +399,7 @@ func main() {
 		{"rA-wB", "rB-wA"}, {"rA-wA", "rA-wA"}, {"ins-c", "ins-c"}, {"prefix-a-wab", "wo-ab-c"}, {"scan-w", "wo-ab-c"}, {"scandesc-w", "wo-a"},
 		{"scan1-w", "wo-a"}, {"w-own-read", "rB-wA"}, {"del-a", "rA-wB"}, {"stale-rA-wB", "wo-a"}, {"stale-scan-w", "wo-ab-c"}, {"reset-scan-w", "ins-c"},
 		{"2idx:stale-rA-rB-wA", "wo-b"}, {"2idx:stale-rB-rA-wB", "wo-a"}, {"2idx:rA-rB-wA", "wo-b"},
+		{"sib:prefix-a-wz", "del-a"},
 	}
 	var scs []sched.Scenario
 	var jobs []sched.Job
@@ -400,6 +409,9 @@ func main() {
 		multi := strings.HasPrefix(progs[0], "2idx:")
 		if multi {
 			progs = append([]string{strings.TrimPrefix(progs[0], "2idx:")}, progs[1:]...)
+		}
+		if strings.HasPrefix(progs[0], "sib:") {
+			progs = append([]string{strings.TrimPrefix(progs[0], "sib:")}, progs[1:]...)
 		}
 		found := false
 		for _, s := range scs {
